@@ -147,6 +147,8 @@ fn obs_ctx<Ctx: ScriptContext>(u: &Universe, case: &Value) -> Value {
                    "ast": dec_to_ast::<Ctx>(u, &d), "ty": tyj(&d), "lift_eq": lift_eq(u, &ms, &d)})
         }
     });
+    // decoder on instruction-level mutations of the real encoding (C04, reverse direction)
+    ev["decmut"] = decode_mutants::<Ctx>(u, &script);
     // lift
     ev["lift"] = guarded(|| match ms.lift() {
         Ok(p) => json!({"ok": true, "err": "", "pol": pol_to_json(u, &p)}),
@@ -168,6 +170,179 @@ fn obs_ctx<Ctx: ScriptContext>(u: &Universe, case: &Value) -> Value {
         }
     });
     ev
+}
+
+/// C04, reverse direction: instruction-level mutations of the real encoding are offered to the
+/// decoder; every accepted one is reported with alpha(bytes), the decoded AST and whether the
+/// decoded miniscript re-encodes to exactly the bytes offered. Judged by Trace_Ast (Encode(ast) = ops).
+fn decode_mutants<Ctx: ScriptContext>(u: &Universe, script: &bitcoin::Script) -> Value {
+    let bytes = script.as_bytes();
+    // instruction boundaries
+    let mut spans: Vec<(usize, usize)> = vec![];
+    let mut last = 0usize;
+    for item in script.instruction_indices() {
+        match item {
+            Ok((pos, _)) => {
+                if pos > last || (pos == 0 && !spans.is_empty()) {
+                    // close the previous span
+                }
+                if !spans.is_empty() {
+                    let n = spans.len();
+                    spans[n - 1].1 = pos;
+                }
+                spans.push((pos, bytes.len()));
+                last = pos;
+            }
+            Err(_) => return json!({"tried": 0, "accepted": [], "panics": 0}),
+        }
+    }
+    let ins: Vec<Vec<u8>> = spans.iter().map(|(a, b)| bytes[*a..*b].to_vec()).collect();
+    let cat = |v: &[Vec<u8>]| -> Vec<u8> { v.iter().flat_map(|x| x.iter().copied()).collect() };
+    let mut muts: Vec<(String, Vec<u8>)> = vec![];
+    let alts = |op: u8| -> Vec<u8> {
+        match op {
+            0xac => vec![0xad, 0xba],
+            0xad => vec![0xac],
+            0x87 => vec![0x88],
+            0x88 => vec![0x87],
+            0xae => vec![0xaf],
+            0xaf => vec![0xae],
+            0x9c => vec![0x9d, 0x87],
+            0x9d => vec![0x9c, 0x88],
+            0x9a => vec![0x9b],
+            0x9b => vec![0x9a],
+            0x63 => vec![0x64],
+            0x64 => vec![0x63],
+            0x76 => vec![0x73],
+            0x73 => vec![0x76],
+            0x93 => vec![0xba],
+            0xba => vec![0x93, 0xac],
+            0xb1 => vec![0xb2],
+            0xb2 => vec![0xb1],
+            0xa8 => vec![0xaa, 0xa9, 0xa6],
+            0xaa => vec![0xa8],
+            0xa9 => vec![0xa6, 0xa8],
+            0xa6 => vec![0xa9],
+            0x00 => vec![0x51],
+            0x7c => vec![0x6b, 0x7b],
+            0x6b => vec![0x6c, 0x7c],
+            0x6c => vec![0x6b],
+            0x92 => vec![0x91],
+            0x82 => vec![0x92],
+            x if (0x51..=0x60).contains(&x) => {
+                let mut v = vec![];
+                if x > 0x51 {
+                    v.push(x - 1);
+                } else {
+                    v.push(0x00);
+                }
+                if x < 0x60 {
+                    v.push(x + 1);
+                }
+                v
+            }
+            _ => vec![],
+        }
+    };
+    for i in 0..ins.len() {
+        let mut v = ins.clone();
+        v.remove(i);
+        muts.push((format!("del{}", i), cat(&v)));
+        let mut v = ins.clone();
+        v.insert(i, ins[i].clone());
+        muts.push((format!("dup{}", i), cat(&v)));
+        if i + 1 < ins.len() {
+            let mut v = ins.clone();
+            v.swap(i, i + 1);
+            muts.push((format!("swap{}", i), cat(&v)));
+        }
+        let mut v = ins.clone();
+        v.insert(i + 1, vec![0x69]);
+        muts.push((format!("verify_after{}", i), cat(&v)));
+        if ins[i].len() == 1 {
+            for a in alts(ins[i][0]) {
+                let mut v = ins.clone();
+                v[i] = vec![a];
+                muts.push((format!("sub{}_{:02x}", i, a), cat(&v)));
+            }
+            // non-minimal spelling of a small number: OP_n as a one-byte push
+            if (0x51..=0x60).contains(&ins[i][0]) {
+                let mut v = ins.clone();
+                v[i] = vec![0x01, ins[i][0] - 0x50];
+                muts.push((format!("nonmin_num{}", i), cat(&v)));
+            }
+            if ins[i][0] == 0x00 {
+                let mut v = ins.clone();
+                v[i] = vec![0x01, 0x00];
+                muts.push((format!("nonmin_zero{}", i), cat(&v)));
+            }
+        } else {
+            let l = ins[i][0] as usize;
+            if l >= 1 && l <= 75 && ins[i].len() == l + 1 {
+                // direct push spelled with PUSHDATA1
+                let mut p = vec![0x4c, l as u8];
+                p.extend_from_slice(&ins[i][1..]);
+                let mut v = ins.clone();
+                v[i] = p;
+                muts.push((format!("pushdata1_{}", i), cat(&v)));
+                if l <= 4 {
+                    // number push: value + 1 / - 1 (little endian, low byte), and a padded (non-minimal) number
+                    for d in [1i16, -1] {
+                        let mut p = ins[i].clone();
+                        let nb = p[1] as i16 + d;
+                        if (0..=0x7f).contains(&nb) {
+                            p[1] = nb as u8;
+                            let mut v = ins.clone();
+                            v[i] = p;
+                            muts.push((format!("num{}{:+}", i, d), cat(&v)));
+                        }
+                    }
+                    if l < 4 && ins[i][l] & 0x80 == 0 {
+                        let mut p = vec![(l + 1) as u8];
+                        p.extend_from_slice(&ins[i][1..]);
+                        p.push(0x00);
+                        let mut v = ins.clone();
+                        v[i] = p;
+                        muts.push((format!("padded_num{}", i), cat(&v)));
+                    }
+                }
+            }
+        }
+    }
+    let mut accepted = vec![];
+    let mut panics = 0;
+    let tried = muts.len();
+    for (name, b) in muts {
+        if b == bytes {
+            continue;
+        }
+        let sb = bitcoin::ScriptBuf::from_bytes(b.clone());
+        let r = catch_unwind(AssertUnwindSafe(|| Miniscript::<Ctx::Key, Ctx>::decode_consensus(&sb)));
+        match r {
+            Err(_) => panics += 1,
+            Ok(Err(_)) => {}
+            Ok(Ok(d)) => {
+                if accepted.len() < 40 {
+                    let ast = dec_to_ast::<Ctx>(u, &d);
+                    // constants outside the universe (a digest re-interpreted under another hash function, an
+                    // unknown key) have no abstract name: such scripts are judged on the byte-level fact only
+                    fn known(a: &Value) -> bool {
+                        let f = a["f"].as_str().unwrap_or("");
+                        let leaf_ok = match f {
+                            "pk_k" | "pk_h" | "sha256" | "hash256" | "ripemd160" | "hash160" => a["n"].as_i64().unwrap_or(0) != 0,
+                            _ => true,
+                        };
+                        leaf_ok
+                            && a["ks"].as_array().map(|ks| ks.iter().all(|k| k.as_i64().unwrap_or(0) != 0)).unwrap_or(true)
+                            && a["xs"].as_array().map(|xs| xs.iter().all(known)).unwrap_or(true)
+                    }
+                    accepted.push(json!({"mut": name, "known": known(&ast), "ops": alpha::script_ops(u, &sb).unwrap_or_default(), "ast": ast,
+                                         "reenc_same": d.encode().as_bytes() == &b[..], "hex": crate::uni::hex(&b)}));
+                }
+            }
+        }
+    }
+    json!({"tried": tried, "accepted": accepted, "panics": panics})
 }
 
 fn tyj<K: MiniscriptKey, Ctx: ScriptContext>(ms: &Miniscript<K, Ctx>) -> Value {
